@@ -826,6 +826,10 @@ class NameTransform:
         if isinstance(node.ctx, ast.Store):
             return store_econtext(name)
 
+        # ... and deleting them (``del name`` in a code block).
+        if isinstance(node.ctx, ast.Del):
+            return subscript(name, load("econtext"), ast.Del())
+
         aliased = self.aliases.get(name)
         if aliased is not None:
             return load(aliased)
